@@ -32,6 +32,8 @@ def iterations(evs: List[Ev]) -> Dict[int, int]:
         if e.stream > 0:
             l = link[e.id]
             it[e.id] = it.get(l, -1) if l > 0 else -1
+    for e in evs:
+        it.setdefault(e.id, -1)          # documented rule 3: anything else (e.g. stream 0) is -1
     return it
 
 
